@@ -87,7 +87,11 @@ func (a *authorizer) AuthorizeTierOperation(
 
 		logrus.Trace("Checking authorization using tier resource type (user can get tier)")
 		logAuthorizerAttributes(attrs)
-		var reason string
+		// err is local to this goroutine: the three checks run concurrently and must not share it.
+		var (
+			reason string
+			err    error
+		)
 		decisionGetTier, reason, err = a.Authorize(ctx, attrs)
 		if err != nil {
 			logrus.WithField("reason", reason).Errorf("Error authorizing tier GET request: %v", err)
@@ -124,6 +128,7 @@ func (a *authorizer) AuthorizeTierOperation(
 
 		logrus.Trace("Checking authorization using tier scoped resource type (policy name match)")
 		logAuthorizerAttributes(attrs)
+		var err error
 		decisionPolicy, _, err = a.Authorize(ctx, attrs)
 		if err != nil {
 			logrus.Errorf("Error authorizing tiered policy request: %v", err)
@@ -148,6 +153,7 @@ func (a *authorizer) AuthorizeTierOperation(
 
 		logrus.Trace("Checking authorization using tier scoped resource type (tier name match)")
 		logAuthorizerAttributes(attrs)
+		var err error
 		decisionTierWildcard, _, err = a.Authorize(ctx, attrs)
 		if err != nil {
 			logrus.Errorf("Error authorizing tier wildcard request: %v", err)
